@@ -81,6 +81,11 @@ func genC02(r *Rng, tier string, n int, emit func(Case)) {
 
 // C05 stream: the same paths, with the k-th data-tree callback failing, for every k
 func genC05Fault(r *Rng, tier string, n int, emit func(Case)) {
+	// expressions without a value ('( )' is accepted: a known finding of C04): running them has to end in an error
+	for _, text := range []string{"()", "( )", "(())", "boolean(())", "1 + ()", "() = ()", "not(())", "-()"} {
+		emit(Case{"k": "c02", "p": map[string]any{"t": "path", "root": "rel", "steps": []any{}}, "text": text, "hex": hex.EncodeToString([]byte(text)),
+			"failAt": 0, "fixroot": true, "nospec": true})
+	}
 	for i := 0; i < n; i++ {
 		p := genPathExprAST(r, 1)
 		text := spell(r, exprTokens(r, p, 0, false), 0)
